@@ -58,7 +58,13 @@ class Lin:
             return self.ev(kids(e)[0])
         if k == "DeclRefExpr":
             s = self.sym.get(e["ref"]["id"])
-            return {s: 1} if s else None
+            if s:
+                return {s: 1}
+            # a local helper variable: its initialiser (hoisted sub-expression)
+            for n in walk(self.fn.body):
+                if n["k"] == "VarDecl" and n.get("did") == e["ref"]["id"] and kids(n) and kids(n)[0] is not None:
+                    return self.ev(kids(n)[0])
+            return None
         if k == "MemberExpr" and e.get("member") == "pos":
             return dict(self.pos)
         if "callee" in e and e["callee"]["name"] == "size" and e.get("member_call") and ref_of(kids(e)[0]) is not None \
